@@ -311,6 +311,10 @@ def _export_roundtrip(b, pt, sc, d):
              ("two_voices_on_staff_1_and_voice_3_on_staff_2", lambda: G.build_part("P1", 2, notes=[("n0", 0, 4, "E", None, 5, 1, 1), ("n1", 4, 4, "D", None, 5, 1, 1), ("m0", 0, 8, "G", None, 4, 2, 1),
                                                                                                     ("b0", 0, 4, "C", None, 3, 3, 2), ("b1", 4, 4, "G", None, 2, 3, 2)],
                                                                                    clefs=[(0, 1, "G", 2), (0, 2, "F", 4)], key=(0, "major"), measures=[(0, 8)])),
+             # a chord of the second voice that reaches down to the lower staff: its lower note stands on staff 2 (= its voice number)
+             ("chord_of_voice_2_across_the_staves", lambda: G.build_part("P1", 2, notes=[("n0", 0, 4, "E", None, 5, 1, 1), ("n1", 4, 4, "D", None, 5, 1, 1), ("c0", 0, 8, "E", None, 4, 2, 1), ("c1", 0, 8, "B", None, 3, 2, 2),
+                                                                                         ("b0", 0, 8, "C", None, 2, 3, 2)],
+                                                                         clefs=[(0, 1, "G", 2), (0, 2, "F", 4)], key=(0, "major"), measures=[(0, 8)])),
              ("a_single_staff_whose_only_voice_is_voice_2", lambda: G.build_part("P1", 2, notes=[("n0", 0, 4, "E", None, 4, 2, 1), ("n1", 4, 4, "D", None, 4, 2, 1)],
                                                                                  clefs=[(0, 1, "G", 2)], key=(0, "major"), measures=[(0, 8)]))]
     for name, mk in parts:
